@@ -115,7 +115,9 @@ def case_strategy(draw: Any, carrier: str) -> Dict[str, Any]:
             # ordinary requests served on the connection before the handshake, and the
             # per-connection request maximum (the handshake may be the last request allowed)
             "prior": prior,
-            "kamax": draw(st.sampled_from([1000, 1000, prior + 1, prior + 2]))}
+            "kamax": draw(st.sampled_from([1000, 1000, prior + 1, prior + 2])),
+            # header names reach the handshake code as the client spelt them
+            "raw_headers": draw(st.booleans()) if carrier == "h1" else False}
 
 
 def is_valid(carrier: str, hs: Dict[str, Any]) -> bool:
@@ -356,7 +358,8 @@ def judge(case: Dict[str, Any], obs: Any) -> None:
 
 
 def run_case(case: Dict[str, Any]) -> CaseInfo:
-    cfg = {"keep_alive_timeout": T_BIG, "keep_alive_max_requests": case.get("kamax", 1000)}
+    cfg = {"keep_alive_timeout": T_BIG, "keep_alive_max_requests": case.get("kamax", 1000),
+           "h11_pass_raw_headers": bool(case.get("raw_headers"))}
     programs = {"*": app_program(case),
                 "/prior": [["recv_all"], ["respond", 200, [["content-length", "2"]], ["ok"]]]}
 
